@@ -146,6 +146,9 @@ fn main() {
                 let text = ast.render();
                 nprog += 1;
                 ast.ops(&mut ops);
+                let mut mo = std::collections::BTreeSet::new();
+                multi_arg_causes(&ast, &mut mo);
+                let mo: Vec<String> = mo.into_iter().collect();
                 for j in 0..inputs {
                     let v = g.input_for(sh, j == 2);
                     if !all_nums_canonical(&v) || atom_collision(&[&v.enc(), &av]) {
@@ -156,7 +159,7 @@ fn main() {
                         failed += 1;
                     }
                     let r = o["out"].as_array().unwrap().len();
-                    t.emit(json!({"e":"cli","prog":text,"ast":av,"in":v.enc(),"oe":{"out":o["out"],"end":o["end"]},"stderr":o["stderr"],"full":1,"r":r,
+                    t.emit(json!({"e":"cli","prog":text,"mo":mo,"ast":av,"in":v.enc(),"oe":{"out":o["out"],"end":o["end"]},"stderr":o["stderr"],"full":1,"r":r,
                                   "dup": if v.has_dup_keys() {1} else {0}}));
                 }
             }
